@@ -1,0 +1,15 @@
+//go:build verif
+
+package server
+
+import "github.com/fatedier/frp/server/proxy"
+
+// VerifC03CloseUDPWorkConn closes the current work connection of the named udp proxy; false
+// if there is no such udp proxy or it has no work connection yet.
+func (svr *Service) VerifC03CloseUDPWorkConn(name string) bool {
+	p, ok := svr.pxyManager.GetByName(name)
+	if !ok {
+		return false
+	}
+	return proxy.VerifCloseUDPWorkConn(p)
+}
